@@ -229,7 +229,8 @@ PROPS["C06"]["units"] = ["engine", "plain"]
 PROPS["C06"]["kani_fallback"] = ["vk_plain_server_accepts_only_configured_credentials"]
 PROPS["C06"]["kani_thorough"] = ["vk_plain_server_accepts_only_configured_credentials", "vk_negotiate_only_enabled_mechanisms"]
 PROPS["C06"]["claim"] += (" For PLAIN the mechanism side of that contract is proved too (unit plain): the server reaches ServerSendWelcome/Ready only through a well-formed HELLO whose username AND password equal the configured ones "
-                          "(no configured credentials => every HELLO is rejected), an error is terminal, Ready on the server is reachable only from ServerSendWelcome.")
+                          "(no configured credentials => every HELLO is rejected), an error is terminal, Ready on the server is reachable only from ServerSendWelcome; "
+                          "security::initialize_plain (region) hands a listener exactly the configured credentials -- an option that was never set stays 'no valid value', it is not the empty string -- and builds the mechanism in the role it was asked for.")
 PROPS["C06"]["level_note"] = ("Relative to the abstract Mechanism contract for CURVE/Noise (cryptography: not applicable) and to negotiate_security_mechanism's contract (assumed). "
                               "When the Verus route cannot decide after an edit (rewrite anchor lost / construct outside the subset), the bounded Kani harness on the real PLAIN mechanism runs as fallback (bounded, never counted as proved).")
 PROPS["C07"]["units"] = ["dec", "framer", "engine", "framebatch", "command", "plain", "greeting", "codec", "flags"]
@@ -314,6 +315,7 @@ PROPS["C14"] = {
            "timeout is answered only after a timed wait of exactly RCVTIMEO on the queue; RCVTIMEO = -1 never answers timeout or would-block; a failed receive consumes nothing. "
            "ROUTER (unit routerrecv, ghost clock): RCVTIMEO = 0 arms no timer and never waits; timeout is answered only for a positive RCVTIMEO and not before first-clock-reading + RCVTIMEO; "
            "EVERY timer the receive loop arms expires at that one deadline however often the loop goes round (not unboundedly later); RCVTIMEO = -1 arms no timer. "
+           "With SNDTIMEO = 0 and the pipe at the high-water mark every entry point of the session-backed interface (send_message, send_multipart, send_multipart_owned) fails at once with would-block (ghost oracle for the pipe's state). "
            "Two known findings are reported: send_message / send_multipart turn SNDTIMEO = -1 into a 30 s timed wait followed by would-block.",
   "level_note": "Elapsed-time accuracy (no earlier than / not unboundedly later: the ghost wait log records the duration handed to tokio::time::timeout, not wall time; for ROUTER the ghost clock bounds every armed timer by the one deadline), and 'buffering stays within HWM + a fixed allowance under any producer/consumer speeds' are runtime/schedule properties: not covered. "
                 "The pipe (fibre BoundedAsyncSender) and tokio::time::timeout enter as abstract stand-ins: try_send never waits and returns the refused item; a timed send either completes, fails, or elapses.",
